@@ -40,6 +40,32 @@ type c15Beh struct {
 	SendN int
 	Level string
 	Zones []string
+	// Then makes the behaviour a response script: the first request of a step
+	// gets this behaviour, the k-th one Then[k-2], later ones the last entry.
+	// Only kinds that Go's transport never retries by itself are scripted
+	// (a response whose headers arrived: ok-*, status-*, cut-*).
+	Then []*c15Beh
+	// Alt is the text of the first complete 200 response of a script that
+	// starts with a failing response (Level c15FailThenOK).
+	Alt *c15Text
+}
+
+// c15FailThenOK: the first response of the script fails, a later one is
+// complete.  Either nothing changes, or - if the product asks again - exactly
+// the complete content is stored.
+const c15FailThenOK = "fail-then-ok"
+
+// at returns the behaviour for the k-th request (k from 0) of a step.
+func (b *c15Beh) at(k int) *c15Beh {
+	if k == 0 || len(b.Then) == 0 {
+		return b
+	}
+
+	return b.Then[min(k, len(b.Then))-1]
+}
+
+func (b *c15Beh) chain() []*c15Beh {
+	return append([]*c15Beh{b}, b.Then...)
 }
 
 func (b *c15Beh) show() map[string]any {
@@ -53,6 +79,17 @@ func (b *c15Beh) show() map[string]any {
 	}
 	if len(b.Zones) > 0 {
 		m["unspecified_zones"] = b.Zones
+	}
+	if len(b.Then) > 0 {
+		var later []map[string]any
+		for _, t := range b.Then {
+			e := map[string]any{"kind": t.Kind, "text": c15Show(t.Text.Bytes), "probe_name": t.Text.Probe}
+			if strings.HasPrefix(t.Kind, "cut-") {
+				e["body_bytes_sent"] = t.SendN
+			}
+			later = append(later, e)
+		}
+		m["responses_to_further_requests_in_this_step"] = later
 	}
 
 	return m
@@ -88,6 +125,8 @@ func (s *c15Script) take(path string) *c15Beh {
 	b := s.beh[path]
 	if b == nil {
 		s.unscripted = append(s.unscripted, path)
+	} else {
+		b = b.at(s.hits[path])
 	}
 	s.hits[path]++
 	s.total++
@@ -481,6 +520,12 @@ func (q *c15Seq) genBeh(l *c15ListM, cur *c15Snap, down bool) *c15Beh {
 		b.Kind, b.Text = okKind(), c15GenText(rng, probe, "html", 0)
 	case r < 68:
 		b.Kind, b.Text = okKind(), c15GenText(rng, probe, "binary", 0)
+	case l.Src != "file" && r < 77:
+		b = c15GenScript(rng, probe, fmt.Sprintf("v%d.l%d.c15probe.test", l.Ver+1000, l.Idx))
+		if b.Level != "" {
+			return b
+		}
+		b = &c15Beh{Kind: okKind(), Text: c15GenText(rng, probe, "plain", 0)}
 	case l.Src == "file":
 		b.Kind = []string{"file-vanished", "file-directory", "file-dangling-symlink"}[rng.Intn(3)]
 		b.Text = &c15Text{Bytes: []byte{}, Class: "none"}
@@ -518,6 +563,68 @@ func (q *c15Seq) genBeh(l *c15ListM, cur *c15Snap, down bool) *c15Beh {
 	return b
 }
 
+// c15GenScript builds a response script for one URL and one refresh:
+// [cut, ok], [cut, cut, ok], [5xx, ok], [cut, ok with other content], [ok, cut].
+func c15GenScript(rng *rand.Rand, probe, probe2 string) *c15Beh {
+	plain := func(p string) *c15Text {
+		t := c15GenText(rng, p, "plain", 4)
+		for try := 0; try < 50 && len(c15Exotic(t.Bytes)) > 0; try++ {
+			t = c15GenText(rng, p, "plain", 4)
+		}
+
+		return t
+	}
+	text := plain(probe)
+	okB := func(t *c15Text) *c15Beh {
+		return &c15Beh{Kind: []string{"ok-length", "ok-chunked"}[rng.Intn(2)], Text: t}
+	}
+	cutB := func(t *c15Text) *c15Beh {
+		kind := []string{"cut-length-midline", "cut-length-midline", "cut-chunked-midline", "cut-length-boundary", "cut-chunked-boundary"}[rng.Intn(5)]
+		n, ok := c15CutPoint(rng, t, strings.HasSuffix(kind, "boundary"))
+		if !ok {
+			kind, n = "cut-length-zero", 0
+		}
+
+		return &c15Beh{Kind: kind, Text: t, SendN: n}
+	}
+	statusB := func(t *c15Text) *c15Beh {
+		st := []int{500, 503, 502}[rng.Intn(3)]
+
+		return &c15Beh{Kind: fmt.Sprintf("status-%d", st), Status: st, Text: t}
+	}
+	var chain []*c15Beh
+	switch r := rng.Intn(20); {
+	case r < 10:
+		chain = []*c15Beh{cutB(text), okB(text)}
+	case r < 13:
+		chain = []*c15Beh{cutB(text), cutB(text), okB(text)}
+	case r < 16:
+		chain = []*c15Beh{statusB(text), okB(text)}
+	case r < 18:
+		chain = []*c15Beh{cutB(text), okB(plain(probe2))}
+	default:
+		chain = []*c15Beh{okB(text), cutB(text)}
+	}
+	b := chain[0]
+	b.Then = chain[1:]
+	b.Level, b.Zones = c15LevelOf(b.Kind, b.Text)
+	if b.Level == c15MustFail {
+		for _, t := range b.Then {
+			if strings.HasPrefix(t.Kind, "ok-") {
+				b.Level, b.Alt = c15FailThenOK, t.Text
+
+				break
+			}
+		}
+	}
+	if len(c15Exotic(text.Bytes)) > 0 || (b.Alt != nil && len(c15Exotic(b.Alt.Bytes)) > 0) {
+		// No unambiguous text found: no script this time.
+		return &c15Beh{}
+	}
+
+	return b
+}
+
 // apply installs the behaviour at the list's source.
 func (q *c15Seq) apply(l *c15ListM, b *c15Beh) error {
 	if l.Src != "file" {
@@ -547,6 +654,9 @@ func c15NamesFor(l *c15ListM, b *c15Beh) []string {
 	names := []string{l.GoodProbe, l.PrevProbe}
 	if b != nil {
 		names = append(names, b.Text.Probe)
+		if b.Alt != nil {
+			names = append(names, b.Alt.Probe)
+		}
 	}
 
 	return names
@@ -634,6 +744,9 @@ func (q *c15Seq) step(si int) bool {
 		st.Beh[l.Idx] = b
 		anyDown = anyDown || b.Kind == "refuse"
 		allNames = append(allNames, b.Text.Probe)
+		if b.Alt != nil {
+			allNames = append(allNames, b.Alt.Probe)
+		}
 		if err = q.apply(l, b); err != nil {
 			rep.Inconcl("cannot install behaviour: " + err.Error())
 
@@ -749,8 +862,16 @@ func (q *c15Seq) step(si int) bool {
 		if l.Src != "file" {
 			hits := q.env.script.hitCount(l.Key)
 			rep.EventN("list_server_requests", hits)
-			if hits > 1 {
+			if hits > 1 && len(b.Then) == 0 {
 				rep.EventN("transport_retries", hits-1)
+			}
+			if len(b.Then) > 0 {
+				kinds := []string{}
+				for _, e := range b.chain() {
+					kinds = append(kinds, strings.SplitN(e.Kind, "-", 2)[0])
+				}
+				rep.Class("scripted:" + strings.Join(kinds, ","))
+				rep.Class(fmt.Sprintf("scripted:requests-in-this-refresh:%d", hits))
 			}
 			if hits == 0 && b.Kind != "refuse" {
 				rep.Event("addressed_list_not_requested")
@@ -765,13 +886,14 @@ func (q *c15Seq) step(si int) bool {
 
 		forms, _ := c15Forms(b.Text.Bytes)
 		// succeeded(f) lists what contradicts a successful refresh to form f.
+		newProbe := b.Text.Probe
 		succeeded := func(f []byte) (diffs []string, label string) {
 			fCount := bytes.Count(f, []byte("\n"))
 			same := bytes.Equal(f, bs.Bytes) && bs.Exists || (!bs.Exists && len(f) == 0)
 			if same {
 				return ud, "content-unchanged"
 			}
-			rd := c15ReplacedDiffs(l.ID, l.Allow, f, fCount, after, b.Text.Probe, l.GoodProbe)
+			rd := c15ReplacedDiffs(l.ID, l.Allow, f, fCount, after, newProbe, l.GoodProbe)
 			if sum, ok := c15ProductSum(f); ok && sum == bs.Sum {
 				// Changed content with the stored checksum: both keeping and
 				// replacing the file are covered by the statement.
@@ -798,6 +920,35 @@ func (q *c15Seq) step(si int) bool {
 			} else {
 				rep.Class("outcome:failed-and-nothing-changed")
 				rep.Class("failed-and-nothing-changed:" + c15KindClass(b))
+			}
+		case c15FailThenOK:
+			// The first response of the step failed, a later one is complete.
+			newProbe = b.Alt.Probe
+			nfAlt, _ := c15Normalise(b.Alt.Bytes, false, false, false)
+			diffs, label := succeeded(nfAlt)
+			switch {
+			case len(ud) == 0:
+				rep.Class("outcome:fail-then-ok:nothing-changed")
+			case len(diffs) == 0:
+				rep.Class("outcome:fail-then-ok:asked-again-and-stored-the-complete-content")
+			default:
+				resyncEngines = true
+				k := c15DiffKey(diffs)
+				for _, e := range b.chain() {
+					if !strings.HasPrefix(e.Kind, "cut-") || e.Kind == "cut-gzip" || !as.Exists {
+						continue
+					}
+					if nfCut, _ := c15Normalise(e.Text.Bytes[:e.SendN], false, false, false); len(nfCut) > 0 &&
+						bytes.HasPrefix(as.Bytes, nfCut) && !bytes.Equal(as.Bytes, bs.Bytes) {
+						k = "stored-file-contains-cut-body"
+					}
+				}
+				rep.Violate(fmt.Sprintf("%s:scripted-responses:%s:%s", st.Mode, label, k),
+					fmt.Sprintf("the first response of the refresh failed (%s), a later one was complete: the list is neither unchanged (%s) nor the normal form of the complete content (%s)",
+						b.Kind, strings.Join(ud, ", "), strings.Join(diffs, ", ")),
+					witness(l, map[string]any{"differences_to_unchanged": ud, "differences_to_complete_content": diffs,
+						"this_step": b.show(), "expected_if_stored": c15Show(nfAlt),
+						"requests_in_this_refresh": q.env.script.hitCount(l.Key)}))
 			}
 		case c15MustSucceed:
 			diffs, label := succeeded(forms[0])
@@ -944,6 +1095,9 @@ func (q *c15Seq) resync(l *c15ListM, bs, as *c15Snap, b *c15Beh) {
 	l.LastOK = nil
 	if b != nil && b.Level != c15MustFail {
 		t := *b.Text
+		if b.Alt != nil {
+			t = *b.Alt
+		}
 		l.LastOK = &t
 	}
 }
